@@ -244,3 +244,21 @@ func (cc *Chaincode) Invoke(stub shim.ChaincodeStubInterface) (r peer.Response) 
 	// handle invoke method with batch process
 	return cc.BatchHandler(traceCtx, stub)
 }
+
+// isMethodDisabled reports whether the configuration in force disables the method:
+// listed in DisabledFunctions, or a swap / multi-swap method while that switch is off.
+func (cc *Chaincode) isMethodDisabled(method string) bool {
+	opts := cc.contract.ContractConfig().GetOptions()
+	if opts == nil {
+		return false
+	}
+
+	var (
+		swapMethods      = []string{"QuerySwapGet", "TxSwapBegin", "TxSwapCancel"}
+		multiSwapMethods = []string{"QueryMultiSwapGet", "TxMultiSwapBegin", "TxMultiSwapCancel"}
+	)
+
+	return OneOf(method, opts.GetDisabledFunctions()...) ||
+		(opts.GetDisableSwaps() && OneOf(method, swapMethods...)) ||
+		(opts.GetDisableMultiSwaps() && OneOf(method, multiSwapMethods...))
+}
